@@ -6,6 +6,8 @@ package orda
 import (
 	gocontext "context"
 
+	mqtt "github.com/eclipse/paho.mqtt.golang"
+
 	"github.com/orda-io/orda/client/pkg/context"
 	"github.com/orda-io/orda/client/pkg/iface"
 	"github.com/orda-io/orda/client/pkg/internal/datatypes"
@@ -21,6 +23,17 @@ func VFNewClient(collection, alias, cuid string, syncType model.SyncType, svc mo
 	sm := managers.NewSyncManagerWithService(ctx, cm, svc)
 	dm := managers.NewDatatypeManager(ctx, sm)
 	return &clientImpl{conf: &ClientConfig{CollectionName: collection, SyncType: syncType}, ctx: ctx, state: connected, syncManager: sm, datatypeManager: dm}
+}
+
+// VFNewRealtimeClient builds the real realtime client: as VFNewClient, with the
+// real NotifyManager (subscription callback, channel, notification loop)
+// around the given MQTT client.
+func VFNewRealtimeClient(collection, alias, cuid string, svc model.OrdaServiceClient, mq mqtt.Client) Client {
+	cm := &model.Client{CUID: cuid, Alias: alias, Collection: collection, Type: model.ClientType_PERSISTENT, SyncType: model.SyncType_REALTIME}
+	ctx := context.NewClientContext(gocontext.TODO(), cm)
+	sm := managers.NewSyncManagerWithServiceAndNotifier(ctx, cm, svc, mq)
+	dm := managers.NewDatatypeManager(ctx, sm)
+	return &clientImpl{conf: &ClientConfig{CollectionName: collection, SyncType: model.SyncType_REALTIME}, ctx: ctx, state: connected, syncManager: sm, datatypeManager: dm}
 }
 
 // VFRegister sends the client registration request (what Connect does after dialling).
